@@ -11,6 +11,11 @@ N5  if c: x = a else: x = b       ->  x = a if c else b         (same single tar
 N6  a if not c else b             ->  b if c else a
 N7  if a NEG b: A else: B         ->  if a POS b: B else: A    (NEG in !=, is not, not in, >=, <=; plain else only; also for
                                       conditional expressions) - one polarity per two-way decision
+N8  if c: ...jump  else: rest    ->  if c: ...jump ; rest      (jump = return / raise / continue / break as the last statement;
+                                      also for elif chains; if only the else branch ends in a jump:  if not c: <else> ; body)
+N9  if a: (if b: X)               ->  if a and b: X            (no else on either; nested and-chains are flattened)
+N10 in test positions (if / while / conditional expression / assert / comprehension filter): negations are pushed inward
+    (De Morgan), double negations dropped, comparisons complemented
 Positions (lineno/col_offset) of the rewritten nodes are kept for reporting.
 """
 from __future__ import annotations
@@ -35,6 +40,10 @@ def _negative(test):
 
 def _complement(test):
     return ast.copy_location(ast.Compare(left=test.left, ops=[_COMPLEMENT[type(test.ops[0])]()], comparators=test.comparators), test)
+
+
+def _jumps(stmts):
+    return bool(stmts) and isinstance(stmts[-1], (ast.Return, ast.Raise, ast.Continue, ast.Break))
 
 
 class Normaliser(ast.NodeTransformer):
@@ -67,16 +76,74 @@ class Normaliser(ast.NodeTransformer):
                 return ast.copy_location(new, node)
         return node
 
+    # -- N10: boolean structure of tests --------------------------------------------------------------------------
+    def _test(self, e):
+        if isinstance(e, ast.UnaryOp) and isinstance(e.op, ast.Not):
+            inner = e.operand
+            if isinstance(inner, ast.BoolOp):
+                dual = ast.Or() if isinstance(inner.op, ast.And) else ast.And()
+                vals = [self._test(ast.copy_location(ast.UnaryOp(op=ast.Not(), operand=v), v)) for v in inner.values]
+                return self._flatten(ast.copy_location(ast.BoolOp(op=dual, values=vals), e))
+            if isinstance(inner, ast.UnaryOp) and isinstance(inner.op, ast.Not):
+                return self._test(inner.operand)
+            if isinstance(inner, ast.Compare) and len(inner.ops) == 1 and type(inner.ops[0]) in _COMPLEMENT:
+                new = ast.Compare(left=inner.left, ops=[_COMPLEMENT[type(inner.ops[0])]()], comparators=inner.comparators)
+                return self.visit_Compare(ast.copy_location(new, e), descend=False)
+            return e
+        if isinstance(e, ast.BoolOp):
+            e.values = [self._test(v) for v in e.values]
+            return self._flatten(e)
+        return e
+
+    @staticmethod
+    def _flatten(b):
+        vals = []
+        for v in b.values:
+            if isinstance(v, ast.BoolOp) and type(v.op) is type(b.op):
+                vals.extend(v.values)
+            else:
+                vals.append(v)
+        b.values = vals
+        return b
+
+    def visit_While(self, node):
+        self.generic_visit(node)
+        node.test = self._test(node.test)
+        return node
+
+    def visit_Assert(self, node):
+        self.generic_visit(node)
+        node.test = self._test(node.test)
+        return node
+
+    def visit_comprehension(self, node):
+        self.generic_visit(node)
+        node.ifs = [self._test(t) for t in node.ifs]
+        return node
+
     def visit_IfExp(self, node):
         self.generic_visit(node)
+        node.test = self._test(node.test)
         if isinstance(node.test, ast.UnaryOp) and isinstance(node.test.op, ast.Not):
             node = ast.copy_location(ast.IfExp(test=node.test.operand, body=node.orelse, orelse=node.body), node)
         if _negative(node.test):
             node = ast.copy_location(ast.IfExp(test=_complement(node.test), body=node.orelse, orelse=node.body), node)
         return node
 
+    def _negated(self, test):
+        return self._test(ast.copy_location(ast.UnaryOp(op=ast.Not(), operand=test), test))
+
     def visit_If(self, node):
         self.generic_visit(node)
+        node.test = self._test(node.test)
+        # N8: no else after a jump
+        if node.orelse and _jumps(node.body):
+            rest = node.orelse
+            node.orelse = []
+            return [self._merge_nested(node)] + rest
+        if node.orelse and _jumps(node.orelse) and not (len(node.orelse) == 1 and isinstance(node.orelse[0], ast.If)):
+            first = ast.copy_location(ast.If(test=self._negated(node.test), body=node.orelse, orelse=[]), node)
+            return [self._merge_nested(first)] + node.body
         plain_else = node.orelse and not (len(node.orelse) == 1 and isinstance(node.orelse[0], ast.If))
         if plain_else and isinstance(node.test, ast.UnaryOp) and isinstance(node.test.op, ast.Not):
             node = ast.copy_location(ast.If(test=node.test.operand, body=node.orelse, orelse=node.body), node)
@@ -88,6 +155,13 @@ class Normaliser(ast.NodeTransformer):
             if len(a.targets) == 1 and len(b.targets) == 1 and isinstance(a.targets[0], (ast.Name, ast.Attribute)) and _text(a.targets[0]) == _text(b.targets[0]):
                 new = ast.Assign(targets=a.targets, value=ast.copy_location(ast.IfExp(test=node.test, body=a.value, orelse=b.value), node), type_comment=None)
                 return ast.copy_location(new, node)
+        return self._merge_nested(node)
+
+    def _merge_nested(self, node):
+        """N9"""
+        while not node.orelse and len(node.body) == 1 and isinstance(node.body[0], ast.If) and not node.body[0].orelse:
+            inner = node.body[0]
+            node = ast.copy_location(ast.If(test=self._flatten(ast.copy_location(ast.BoolOp(op=ast.And(), values=[node.test, inner.test]), node.test)), body=inner.body, orelse=[]), node)
         return node
 
     def visit_Assign(self, node):
